@@ -63,6 +63,17 @@ def observe_numconv(fx, np, props, t, codes, byvalue=False, hist=None):
         af = np.asarray(X.astype(float)).ravel().tolist()
         ai = np.asarray(X.astype(int)).ravel().tolist()
         raw = np.asarray(X.raw()).ravel().tolist()
+        # the same conversions asked for in other spellings: NumPy integer / float types, and get_val with index= / item= on a 2-D object
+        ai_np = np.asarray(X.astype([np.int64, 'int64', np.dtype('int64'), np.int32][len(codes) % 4])).ravel().tolist()
+        af_np = np.asarray(X.astype([np.float64, 'float64', np.float32][len(codes) % 3] if t[1] <= 20 else np.float64)).ravel().tolist()
+        n2 = len(codes) - len(codes) % 2
+        if n2 >= 4 and not hist:
+            X2 = (mkv if byvalue else mk)(fx, np, t, codes[:n2], (2, n2 // 2))
+            gv_row = np.asarray(X2.get_val(index=1)).ravel().tolist()
+            gv_item = [np.asarray(X2.get_val(item=k)).ravel().tolist()[0] for k in range(n2)]
+            gv_item2 = [np.asarray(X2.item(k // (n2 // 2), k % (n2 // 2))).ravel().tolist()[0] for k in range(n2)]
+        else:
+            gv_row, gv_item, gv_item2, n2 = [], [], [], 0
         uraw = np.asarray(X.uraw()).ravel().tolist()
         sc = []
         for c in codes:                         # scalar conversions: float(), int(), bool(), x()
@@ -72,6 +83,8 @@ def observe_numconv(fx, np, props, t, codes, byvalue=False, hist=None):
             for v in seq:
                 if isinstance(v, float) and not v.is_integer():
                     raise ValueError('%s returned non-integer %r' % (name, v))
+        row = dict(row, ainp=[wint(int(v)) for v in ai_np], afnp=[wdy(v) for v in af_np], n2=n2, gvrow=[wdy(v) for v in gv_row],
+                   gvitem=[wdy(v) for v in gv_item], gvitem2=[wdy(v) for v in gv_item2])
         return dict(row, c=[wint(c) for c in codes], gv=[wdy(v) for v in gv], af=[wdy(v) for v in af], ai=[wint(int(v)) for v in ai],
                     raw=[wint(int(v)) for v in raw], uraw=[wint(int(v)) for v in uraw], sc=sc, v=[0] * len(codes))
     except Exception as ex:
